@@ -1292,9 +1292,19 @@ struct array : static_array<T, D, Alloc> {
 	}
 
 #ifndef NOEXCEPT_ASSIGNMENT
-	auto operator=(array&& other) noexcept -> array& {
+	auto operator=(array&& other) noexcept(multi::allocator_traits<typename array::allocator_type>::propagate_on_container_move_assignment::value || multi::allocator_traits<typename array::allocator_type>::is_always_equal::value) -> array& {
 		if(this == std::addressof(other)) {
 			return *this;
+		}
+		if constexpr(!multi::allocator_traits<typename array::allocator_type>::propagate_on_container_move_assignment::value && !multi::allocator_traits<typename array::allocator_type>::is_always_equal::value) {
+			if(this->alloc() != other.alloc()) {  // a block cannot change allocator: the elements are moved one by one instead
+				array tmp(other().element_moved(), this->alloc());
+				other.clear();
+				clear();
+				this->base_            = std::exchange(tmp.base_, nullptr);
+				this->layout_mutable() = std::exchange(tmp.layout_mutable(), typename array::layout_type(typename array::extensions_type{}));
+				return *this;
+			}
 		}
 		clear();
 		this->base_ = other.base_;
